@@ -14,11 +14,16 @@
   * the 15-field "Linux 2.4" layout is psutil's own (`major minor reads name` + the other ten
     counters + one more field), pinned by its test-suite (`test_emulate_kernel_2_4`).
   * `/sys/block` lists whole disks (not partitions); a `/` in a device name appears as `!`.
+  * `/sys/block/<disk>/stat` and `/sys/block/<disk>/<partition>/stat` (Documentation/block/stat.rst,
+    block/genhd.c `part_stat_show`): one line, the same eleven counters as `/proc/diskstats`
+    (2.6 … 4.17), +4 discard counters (4.18+), +2 flush counters (5.5+), each right-aligned in
+    eight columns ("%8lu %8lu %8llu %8u …"), one blank between, "\n" at the end.
   User side: the documented fields of `snetio`, `sdiskio` (sectors × 512 = bytes), `sdiskusage`.
 -/
 import PsutilModel.Base.Bytes
 import PsutilModel.Base.Dec
 import PsutilModel.Base.C09Text
+import PsutilModel.Base.C09Sysfs
 namespace Psutil.C09.Spec
 
 /-- `%<w>s`: right-aligned in a minimum width -/
@@ -189,6 +194,64 @@ def expectDisk (perdisk : Bool) (devs : List Dev) : Expect :=
   else
     (if (wholeDisks devs).isEmpty then .none
      else .total (sumFields diskFieldNames ((wholeDisks devs).map fun d => documented9 d.stat)))
+
+/-! ### /sys/block (the source when `/proc/diskstats` does not exist) -/
+
+/-- "%8lu %8lu … %8u\n" -/
+def renderStatLine : List Nat → Bytes
+  | [] => [10]
+  | v :: r => numW 8 v ++ renderCells (r.map fun x => (8, x)) ++ [10]
+
+/-- the `stat` attribute: 11 (+4, +6, …) counters -/
+def renderStat (s : Io11) (ext : List Nat) : Bytes := renderStatLine (s.cols ++ ext)
+
+def statName : Bytes := [115, 116, 97, 116]
+
+/-- a partition's directory `/sys/block/<disk>/<partition>/` -/
+structure SysPart where
+  minor : Nat
+  name : Bytes
+  s : Io11
+  ext : List Nat
+  /-- the other attribute files (`dev`, `size`, `start`, …) -/
+  others : List (Bytes × Bytes)
+  /-- attribute directories (`holders/`, `power/`, …): no file called `stat` anywhere below -/
+  attrs : List SysDir
+
+/-- a whole disk's directory `/sys/block/<disk>/` -/
+structure SysDisk where
+  major : Nat
+  minor : Nat
+  name : Bytes
+  s : Io11
+  ext : List Nat
+  others : List (Bytes × Bytes)
+  attrs : List SysDir
+  parts : List SysPart
+
+def partDir (p : SysPart) : SysDir :=
+  .node (sysName p.name) (p.others ++ [(statName, renderStat p.s p.ext)]) p.attrs
+
+def diskDir (d : SysDisk) : SysDir :=
+  .node (sysName d.name) (d.others ++ [(statName, renderStat d.s d.ext)]) (d.parts.map partDir ++ d.attrs)
+
+/-- the directories listed in `/sys/block` -/
+def renderSysfs (disks : List SysDisk) : List SysDir := disks.map diskDir
+
+/-- the same kernel state as `/proc/diskstats` presents it: the disk, then its partitions -/
+def SysDisk.devs (d : SysDisk) : List Dev :=
+  ⟨d.major, d.minor, d.name, false, .full d.s d.ext⟩ ::
+    d.parts.map fun p => ⟨d.major, p.minor, p.name, true, .full p.s p.ext⟩
+
+def sysDevs (disks : List SysDisk) : List Dev := disks.flatMap SysDisk.devs
+
+/-- sysfs presents a device under its directory name (`/` → `!`) -/
+def sysfsNamed (devs : List Dev) : List Dev := devs.map fun d => { d with name := sysName d.name }
+
+/-- what the user is promised when the counters come from `/sys/block`: as from
+    `/proc/diskstats`, every device under the name sysfs lists it with -/
+def expectSysfs (perdisk : Bool) (disks : List SysDisk) : Expect :=
+  expectDisk perdisk (sysfsNamed (sysDevs disks))
 
 /-! ### disk_usage -/
 
